@@ -352,7 +352,7 @@ def main():
     if props.PROPS[prop].get('custom'):
         return run_custom(prop, tier, seed, flavs, replay_path)
     known, fixed = load_known()
-    known_here = [k for k in known if k['property'] == prop]
+    known_here = [k for k in known if prop in k['property'].split(',')]   # a finding can be visible to several properties' oracles
     known_ids = [k['id'] for k in known_here]
 
     specs = props.specs_for(prop, tier, seed)
